@@ -41,7 +41,8 @@
 (*            as a declared dimension (family "args"): atomic orderings    *)
 (*            (cmpxchg: every success x failure pair LLVM 14 accepts;      *)
 (*            atomicrmw: operation x ordering; atomic load / store;        *)
-(*            fence), synchronisation scopes, weak / volatile, every       *)
+(*            fence), synchronisation scopes, weak / volatile, explicit    *)
+(*            alignment of load / store / cmpxchg / atomicrmw, every       *)
 (*            subset of the fast-math flags, predicates per operand class, *)
 (*            calling conventions, tail markers.  Law (C03): what was      *)
 (*            constructed is what prints.                                  *)
@@ -252,14 +253,14 @@ Kinds == <<
        [variants |-> <<Var([ordering |-> "seq_cst"]), Var([ordering |-> "acquire"]), Var([ordering |-> "release"]),
                        Var([ordering |-> "acq_rel"]), Var([ordering |-> "seq_cst", syncscope |-> "singlethread"])>>]),
   With(Entry("cmpxchg", "inst", "value",
-        "{res}cmpxchg{f:weak}{f:volatile} {TV:Ptr}, {TV:Cmp}, {TV:New}{a:syncscope| syncscope(\"|\")} {a:ordering} {a:ordering2}",
+        "{res}cmpxchg{f:weak}{f:volatile} {TV:Ptr}, {TV:Cmp}, {TV:New}{a:syncscope| syncscope(\"|\")} {a:ordering} {a:ordering2}{a:align|, align }",
         <<V("Ptr", "ptrT"), V("Cmp", "T"), V("New", "T")>>, <<"weak", "volatile">>, <<"i32", "i8", "i64", "ptr">>, "cmpxchgT", "plain"),
        [variants |-> <<Var([ordering |-> "seq_cst", ordering2 |-> "seq_cst"]),
                        Var([ordering |-> "acq_rel", ordering2 |-> "monotonic"]),
                        Var([ordering |-> "release", ordering2 |-> "acquire"]),
                        Var([ordering |-> "monotonic", ordering2 |-> "monotonic", syncscope |-> "singlethread"])>>]),
   With(Entry("atomicrmw", "inst", "value",
-        "{res}atomicrmw{f:volatile} {a:op} {TV:Dst}, {TV:X}{a:syncscope| syncscope(\"|\")} {a:ordering}",
+        "{res}atomicrmw{f:volatile} {a:op} {TV:Dst}, {TV:X}{a:syncscope| syncscope(\"|\")} {a:ordering}{a:align|, align }",
         <<V("Dst", "ptrT"), V("X", "T")>>, <<"volatile">>, <<"i32", "i8", "i64">>, "T", "plain"),
        [variants |-> SeqMap(LAMBDA o : Var([op |-> o, ordering |-> "seq_cst"]), RMWOps)
                      \o <<VarC([op |-> "fadd", ordering |-> "monotonic"], "float"),
@@ -626,16 +627,24 @@ ArgSpace(e) ==
   CASE e.kind = "cmpxchg" ->
          {<<"i32", fl, [ordering |-> so, ordering2 |-> fo] @@ Scope(sc)>>
             : so \in SuccessOrds, fo \in FailureOrds, fl \in {<<>>, e.flags}, sc \in {"", "singlethread"}}
+         \* explicit alignment (a power of two not below the size of the value)
+         \cup {<<x[1], <<>>, [ordering |-> "seq_cst", ordering2 |-> "monotonic", align |-> x[2]]>>
+                 : x \in {<<"i32", "4">>, <<"i32", "8">>, <<"i32", "16">>, <<"i8", "1">>, <<"i8", "2">>, <<"i64", "8">>, <<"i64", "32">>}}
     [] e.kind = "atomicrmw" ->
          {<<"i32", <<>>, [op |-> o, ordering |-> so]>> : o \in SeqToSet(RMWOps), so \in SuccessOrds}
          \cup {<<"i64", <<"volatile">>, [op |-> o, ordering |-> "acq_rel"] @@ Scope(sc)>> : o \in SeqToSet(RMWOps), sc \in {"singlethread", "agent"}}
          \cup {<<c, <<>>, [op |-> o, ordering |-> so]>> : c \in {"float", "double"}, o \in {"fadd", "fsub", "xchg"}, so \in SuccessOrds}
+         \cup {<<x[1], fl, [op |-> o, ordering |-> "monotonic", align |-> x[2]]>>
+                 : x \in {<<"i32", "4">>, <<"i32", "8">>, <<"i8", "1">>, <<"i8", "4">>, <<"i64", "16">>}, o \in {"add", "xchg", "umax"}, fl \in {<<>>, <<"volatile">>}}
     [] e.kind = "load" ->
          {<<"i32", fl, [atomic |-> "1", ordering |-> so, align |-> "4"] @@ Scope(sc)>>
             : so \in LoadOrds, fl \in SubSeqs(e.flags), sc \in ScopeNames}
+         \* not atomic: volatile x alignment (absent, below, at and above the natural alignment)
+         \cup {<<c, fl, IF al = "" THEN NoAttrs ELSE [align |-> al]>> : c \in {"i32", "vec"}, fl \in SubSeqs(e.flags), al \in {"", "1", "4", "64"}}
     [] e.kind = "store" ->
          {<<"i32", fl, [atomic |-> "1", ordering |-> so, align |-> "4"] @@ Scope(sc)>>
             : so \in StoreOrds, fl \in SubSeqs(e.flags), sc \in ScopeNames}
+         \cup {<<c, fl, IF al = "" THEN NoAttrs ELSE [align |-> al]>> : c \in {"i32", "vec"}, fl \in SubSeqs(e.flags), al \in {"", "1", "4", "64"}}
     [] e.kind = "fence" -> {<<"none", <<>>, [ordering |-> so] @@ Scope(sc)>> : so \in FenceOrds, sc \in ScopeNames}
     \* every subset of the fast-math flags (all seven together are `fast`)
     [] e.kind = "fadd" /\ e.cat = "inst" -> {<<"float", fl, NoAttrs>> : fl \in SubSeqs(NonFast(e.flags))}
